@@ -23,22 +23,35 @@ NPNS = {'exp': np.exp, 'log': np.log, 'log10': np.log10, 'log1p': np.log1p, 'exp
         'power': np.power, 'sum': np.sum, 'pi': np.pi, 'e': np.e}
 
 
+def envs(tree, vals, c, k):
+    return [float(vals[G.VARS[j]].ravel()[k if vals[G.VARS[j]].size > 1 else 0]) if j in c['vars'] else 0.0
+            for j in range(3)]
+
+
 def handle(c):
     tree, cfg = c['tree'], c['config']
     names = [G.VARS[i] for i in c['vars']]
     shape = tuple(c['shape'])
     n = int(np.prod(shape)) if shape else 1
-    vals = {}
-    for i in c['vars']:
-        v = np.array(c['inputs'][str(i)], dtype=float)
-        vals[G.VARS[i]] = v
     reduce_sum = bool(c.get('sum'))
     rhs = G.pysrc(tree)
     src = 'y = sum(%s)' % rhs if reduce_sum else 'y = %s' % rhs
+    inscalar = set(c.get('inscalar', []))
+    yscalar = bool(c.get('yscalar'))
 
+    def point_vals(pt):
+        vals = {}
+        for i in c['vars']:
+            v = np.array(pt['inputs'][str(i)], dtype=float)
+            if i in inscalar:
+                v = v.reshape(())          # a true scalar, shape ()
+            vals[G.VARS[i]] = v
+        return vals
+
+    vals0 = point_vals(c['points'][0])
     p = om.Problem()
     ivc = p.model.add_subsystem('ivc', om.IndepVarComp())
-    for nm, v in vals.items():
+    for nm, v in vals0.items():
         ivc.add_output(nm, val=v.copy())
     kw = {}
     opts = {}
@@ -48,77 +61,82 @@ def handle(c):
         opts['do_coloring'] = False
     yshape = (1,) if (reduce_sum or n == 1) else shape
     if cfg == 'shape_by_conn':
-        for nm, v in vals.items():
+        for nm, v in vals0.items():
             kw[nm] = {'shape_by_conn': True}
-        first_arr = [nm for nm, v in vals.items() if v.size > 1]
+        first_arr = [nm for nm, v in vals0.items() if v.size > 1]
         if first_arr and not reduce_sum:
             kw['y'] = {'copy_shape': first_arr[0]}
         else:
             kw['y'] = {'val': np.zeros(yshape)}
     else:
-        for nm, v in vals.items():
-            kw[nm] = {'val': v.copy()}
-        kw['y'] = {'val': np.zeros(yshape)}
+        for i, (nm, v) in zip(c['vars'], vals0.items()):
+            kw[nm] = {'shape': ()} if i in inscalar else {'val': v.copy()}
+        kw['y'] = {'shape': ()} if yscalar else {'val': np.zeros(yshape)}
     comp = om.ExecComp(src, **opts, **kw)
     p.model.add_subsystem('c', comp)
-    for nm in vals:
+    for nm in vals0:
         p.model.connect('ivc.' + nm, 'c.' + nm)
     p.setup()
-    p.run_model()
-    y = np.array(p.get_val('c.y'), dtype=float).ravel()
-    wrt = ['ivc.' + nm for nm in vals]
-    J = p.compute_totals(of=['c.y'], wrt=wrt, return_format='dict')['c.y']
-    colored = comp._coloring_info.coloring is not None
 
     msgs, sig = [], ''
-    # (1) outputs == NumPy evaluation of the same source
-    ns = dict(NPNS)
-    ns.update({nm: (v if v.size > 1 else v.reshape(-1)[0]) for nm, v in vals.items()})
-    ref = np.atleast_1d(np.asarray(eval(('sum(%s)' % rhs) if reduce_sum else rhs, {'__builtins__': {}}, ns),
-                                   dtype=float)).ravel()
-    if ref.size == 1 and y.size > 1:
-        ref = np.full(y.size, ref[0])
-    # ExecComp evaluates in complex arithmetic (its complex-step arrays) and returns the real part, so the
-    # last bits can differ from the real NumPy evaluation (complex division / cosh ...): 1e-12 relative
-    if y.shape != ref.shape or not np.all(np.abs(y - ref) <= 1e-12 * np.maximum(1.0, np.abs(ref))):
-        k = int(np.argmax(y != ref)) if y.shape == ref.shape else 0
-        msgs.append('output %r differs from NumPy evaluation %r (element %d) of %s' % (
-            y.tolist()[:4], ref.tolist()[:4], k, src))
-        sig = 'output'
-    # (2) partials == exact derivative
-    nout = y.size
-    Jq = {}
-    for i, nm in zip(c['vars'], names):
-        Ji = np.array(J['ivc.' + nm], dtype=float).reshape(nout, vals[nm].size)
-        Jq[str(i)] = [[q(float(t)) for t in row] for row in Ji]
-        for k in range(nout):
-            for l in range(vals[nm].size):
-                if reduce_sum:
-                    env = [float(vals[G.VARS[j]].ravel()[l if vals[G.VARS[j]].size > 1 else 0])
-                           if j in c['vars'] else 0.0 for j in range(3)]
-                    want = G.ev(tree, env, i, margin=False).d if vals[nm].size > 1 else sum(
-                        G.ev(tree, [float(vals[G.VARS[j]].ravel()[kk if vals[G.VARS[j]].size > 1 else 0])
-                                    if j in c['vars'] else 0.0 for j in range(3)], i, margin=False).d
-                        for kk in range(n))
-                elif vals[nm].size > 1 and k != l:
-                    want = None        # structurally zero
-                else:
-                    env = [float(vals[G.VARS[j]].ravel()[k if vals[G.VARS[j]].size > 1 else 0])
-                           if j in c['vars'] else 0.0 for j in range(3)]
-                    want = G.ev(tree, env, i, margin=False).d
-                got = Ji[k, l]
-                if want is None:
-                    if got != 0.0:
-                        msgs.append('d y[%d] / d %s[%d] = %r, must be exactly 0' % (k, nm, l, got))
-                        sig = sig or 'offdiag'
-                elif not (abs(got - want) <= 1e-9 * max(1.0, abs(want))):
-                    msgs.append('d y[%d] / d %s[%d] = %r, exact derivative %r (%s, config %s)' % (
-                        k, nm, l, got, want, src, cfg))
-                    sig = sig or 'partial'
-    res = {'y': [q(float(t)) for t in y], 'J': Jq}
-    return {'res': res, 'ok': not msgs, 'msg': '; '.join(msgs[:3]), 'sig': sig,
-            'kind': '%s:%s%s%s' % (cfg, 'arr' if n > 1 else 'scalar', ':sum' if reduce_sum else '',
-                                   ':colored' if colored else ''), 'src': src}
+    res_all = []
+    colored = False
+    for ip, pt in enumerate(c['points']):
+        vals = point_vals(pt)
+        for nm, v in vals.items():
+            p.set_val('ivc.' + nm, v)
+        p.run_model()
+        y = np.array(p.get_val('c.y'), dtype=float).ravel()
+        wrt = ['ivc.' + nm for nm in vals]
+        J = p.compute_totals(of=['c.y'], wrt=wrt, return_format='dict')['c.y']
+        colored = colored or comp._coloring_info.coloring is not None
+        tag = 'point %d/%d: ' % (ip + 1, len(c['points']))
+
+        # (1) outputs == NumPy evaluation of the same source
+        ns = dict(NPNS)
+        ns.update({nm: (v.ravel() if v.size > 1 else float(v.reshape(-1)[0])) for nm, v in vals.items()})
+        ref = np.atleast_1d(np.asarray(eval(('sum(%s)' % rhs) if reduce_sum else rhs, {'__builtins__': {}}, ns),
+                                       dtype=float)).ravel()
+        if ref.size == 1 and y.size > 1:
+            ref = np.full(y.size, ref[0])
+        # ExecComp evaluates in complex arithmetic (its complex-step arrays) and returns the real part, so the
+        # last bits can differ from the real NumPy evaluation (complex division / cosh ...): 1e-12 relative
+        if y.shape != ref.shape or not np.all(np.abs(y - ref) <= 1e-12 * np.maximum(1.0, np.abs(ref))):
+            k = int(np.argmax(y != ref)) if y.shape == ref.shape else 0
+            msgs.append(tag + 'output %r differs from NumPy evaluation %r (element %d) of %s' % (
+                y.tolist()[:4], ref.tolist()[:4], k, src))
+            sig = sig or 'output'
+        # (2) partials == exact derivative
+        nout = y.size
+        Jq = {}
+        for i, nm in zip(c['vars'], names):
+            Ji = np.array(J['ivc.' + nm], dtype=float).reshape(nout, vals[nm].size)
+            Jq[str(i)] = [[q(float(t)) for t in row] for row in Ji]
+            for k in range(nout):
+                for l in range(vals[nm].size):
+                    if reduce_sum:
+                        if vals[nm].size > 1:
+                            want = G.ev(tree, envs(tree, vals, c, l), i, margin=False).d
+                        else:
+                            want = sum(G.ev(tree, envs(tree, vals, c, kk), i, margin=False).d for kk in range(n))
+                    elif vals[nm].size > 1 and k != l:
+                        want = None        # structurally zero
+                    else:
+                        want = G.ev(tree, envs(tree, vals, c, k), i, margin=False).d
+                    got = Ji[k, l]
+                    if want is None:
+                        if got != 0.0:
+                            msgs.append(tag + 'd y[%d] / d %s[%d] = %r, must be exactly 0' % (k, nm, l, got))
+                            sig = sig or 'offdiag'
+                    elif not (abs(got - want) <= 1e-9 * max(1.0, abs(want))):
+                        msgs.append(tag + 'd y[%d] / d %s[%d] = %r, exact derivative %r (%s, config %s, %s=%r)' % (
+                            k, nm, l, got, want, src, cfg, nm, vals[nm].tolist()))
+                        sig = sig or ('partial' if ip == 0 else 'partial-after-relinearization')
+        res_all.append({'y': [q(float(t)) for t in y], 'J': Jq})
+    return {'res': res_all, 'ok': not msgs, 'msg': '; '.join(msgs[:3]), 'sig': sig,
+            'kind': '%s:%s%s%s%s%s:pts%d' % (cfg, 'arr' if n > 1 else 'scalar', ':sum' if reduce_sum else '',
+                                          ':colored' if colored else '', ':y()' if yscalar else '',
+                                          ':in()' if inscalar else '', len(c['points'])), 'src': src}
 
 
 if __name__ == '__main__':
